@@ -1,13 +1,16 @@
 package rules
 
 import (
+	"strings"
+
+	"golang.org/x/tools/go/types/typeutil"
+
 	"go/ast"
 	"go/constant"
 	"go/token"
 	"go/types"
 
 	"verif/internal/flow"
-	"verif/internal/load"
 )
 
 // ---------------------------------------------------------------------------------------
@@ -29,126 +32,97 @@ func c08Wrap(v *c08env) {
 		return o
 	}
 	subjects := 0
-	// the wrapper: the method Wrap (name fixed by the exported Wrapper interface) of the type of
-	// pkg/resilience that embeds the library breaker — whatever that unexported type is called
-	wrapName := "circuitBreakerWrapper"
-	wraps := funcsByRole(c, c08rs, func(g *flow.Func, fd *ast.FuncDecl) bool {
-		if fd.Name.Name != "Wrap" || fd.Recv == nil || len(fd.Recv.List) != 1 {
-			return false
+	// the wrapper: the function (closure, method or plain function) of pkg/resilience that asks
+	// the library breaker for permission — found by that call, whatever the wrapper type, its
+	// field for the breaker, or the function itself are called
+	if rsPkg := c.Prog.Pkg(c08rs); rsPkg == nil {
+		c.Errorf("anchor: package %s not loaded", c08rs)
+	} else if sentinel := lookupVar(c08rs, "ErrShortCircuited"); sentinel != nil {
+		type subject struct {
+			f     *flow.Func
+			outer ast.Node
+			cons  string
 		}
-		t := g.Info.TypeOf(fd.Recv.List[0].Type)
-		if p, ok := t.(*types.Pointer); ok {
-			t = p.Elem()
-		}
-		st, ok := t.Underlying().(*types.Struct)
-		if !ok {
-			return false
-		}
-		for i := 0; i < st.NumFields(); i++ {
-			ft := st.Field(i).Type()
-			if p, ok := ft.(*types.Pointer); ok {
-				ft = p.Elem()
-			}
-			if types.Identical(ft, v.cbT) {
-				return true
-			}
-		}
-		return false
-	})
-	switch len(wraps) {
-	case 0:
-		c.Errorf("R-C08-6: anchor: no type of %s embedding the circuit breaker has a Wrap method", c08rs)
-	case 1:
-	default:
-		c.Errorf("R-C08-6: anchor: %d types of %s embedding the circuit breaker have a Wrap method", len(wraps), c08rs)
-	}
-	if len(wraps) == 1 {
-		f := wraps[0]
-		c.Count("functions_analysed", 1)
-		if fd, ok := f.Node.(*ast.FuncDecl); ok {
-			wrapName = load.RecvName(fd.Recv.List[0].Type)
-		}
-		var lit *ast.FuncLit
-		ast.Inspect(f.Body, func(n ast.Node) bool {
-			if rs, ok := n.(*ast.ReturnStmt); ok && lit == nil && len(rs.Results) == 1 {
-				switch x := ast.Unparen(rs.Results[0]).(type) {
-				case *ast.FuncLit:
-					lit = x
-				case *ast.Ident:
-					// h := func(...){...}; return h
-					ast.Inspect(f.Body, func(m ast.Node) bool {
-						if as, ok := m.(*ast.AssignStmt); ok && len(as.Lhs) == 1 && len(as.Rhs) == 1 {
-							if id, ok := as.Lhs[0].(*ast.Ident); ok && c08obj(f, id) == c08obj(f, x) {
-								if l, ok := ast.Unparen(as.Rhs[0]).(*ast.FuncLit); ok {
-									lit = l
-								}
-							}
+		var subs []subject
+		seen := map[ast.Node]bool{}
+		for _, file := range rsPkg.Syntax {
+			for _, d := range file.Decls {
+				fd, ok := d.(*ast.FuncDecl)
+				if !ok || fd.Body == nil {
+					continue
+				}
+				g := flow.NewFunc(rsPkg, fd)
+				// stack of enclosing function literals that are not deferred calls
+				var lits []*ast.FuncLit
+				deferred := map[*ast.FuncLit]bool{}
+				var stack []ast.Node
+				ast.Inspect(fd.Body, func(n ast.Node) bool {
+					if n == nil {
+						top := stack[len(stack)-1]
+						stack = stack[:len(stack)-1]
+						if l, ok := top.(*ast.FuncLit); ok && len(lits) > 0 && lits[len(lits)-1] == l {
+							lits = lits[:len(lits)-1]
 						}
 						return true
-					})
-				}
-			}
-			return true
-		})
-		var handler types.Object
-		if f.Type.Params != nil {
-			for _, fl := range f.Type.Params.List {
-				for _, n := range fl.Names {
-					if o := f.Info.Defs[n]; o != nil && handler == nil {
-						if _, isSig := o.Type().Underlying().(*types.Signature); isSig {
-							handler = o
-						}
 					}
-				}
-			}
-		}
-		sentinel := lookupVar(c08rs, "ErrShortCircuited")
-		switch {
-		case lit == nil || handler == nil:
-			c.Errorf("R-C08-6: anchor: circuitBreakerWrapper.Wrap does not return a function literal over its handler parameter")
-		case sentinel != nil:
-			subjects++
-			// "extract method": a closure that only hands ctx and the handler on to a
-			// same-package function is analysed in that function
-			subj, outer, h := f.Lit(lit), ast.Node(f.Body), handler
-			cons := fname(c08rs, wrapName, "Wrap") + "$closure"
-			for depth := 0; depth < 2 && len(subj.Body.List) == 1; depth++ {
-				rs, ok := subj.Body.List[0].(*ast.ReturnStmt)
-				if !ok || len(rs.Results) != 1 {
-					break
-				}
-				call, ok := ast.Unparen(rs.Results[0]).(*ast.CallExpr)
-				if !ok {
-					break
-				}
-				fo, ok := f.Callee(call).(*types.Func)
-				if !ok || fo.Pkg() != f.Pkg.Types {
-					break
-				}
-				gd := declOf(f.Pkg, fo)
-				if gd == nil || gd.Type.Params == nil {
-					break
-				}
-				var hp types.Object
-				idx := 0
-				for _, fl := range gd.Type.Params.List {
-					for _, n := range fl.Names {
-						if idx < len(call.Args) {
-							if aid, ok := ast.Unparen(call.Args[idx]).(*ast.Ident); ok && c08obj(f, aid) == h {
-								hp = f.Info.Defs[n]
+					stack = append(stack, n)
+					switch x := n.(type) {
+					case *ast.DeferStmt:
+						if l, ok := ast.Unparen(x.Call.Fun).(*ast.FuncLit); ok {
+							deferred[l] = true
+						}
+					case *ast.FuncLit:
+						if !deferred[x] {
+							lits = append(lits, x)
+						}
+					case *ast.CallExpr:
+						if g.Callee(x) == types.Object(v.meth["AcquirePermission"]) {
+							if len(lits) > 0 {
+								l := lits[len(lits)-1]
+								if !seen[l] {
+									seen[l] = true
+									subs = append(subs, subject{g.Lit(l), fd.Body, declName(rsPkg, fd) + "$closure"})
+								}
+							} else if !seen[fd] {
+								seen[fd] = true
+								subs = append(subs, subject{g, fd.Body, declName(rsPkg, fd)})
 							}
 						}
-						idx++
+					}
+					return true
+				})
+			}
+		}
+		if len(subs) == 0 {
+			c.Errorf("R-C08-6: anchor: no function of %s calls CircuitBreaker.AcquirePermission", c08rs)
+		}
+		for _, sb := range subs {
+			subjects++
+			c.Count("functions_analysed", 1)
+			sf := sb.f
+			defs := c08collectDefs(sf, sb.outer)
+			// the handler: a function value returning error that comes from outside (a
+			// parameter, a captured variable, a struct field) — not a closure defined here
+			isHandler := func(o types.Object) bool {
+				vr, ok := o.(*types.Var)
+				if !ok || vr.Pkg() == nil || (!vr.IsField() && vr.Parent() == vr.Pkg().Scope()) {
+					return false
+				}
+				sig, ok := vr.Type().Underlying().(*types.Signature)
+				if !ok || sig.Results().Len() != 1 || !c08isErrorT(sig.Results().At(0).Type()) {
+					return false
+				}
+				for _, dd := range defs[vr] {
+					if dd == nil {
+						continue
+					}
+					if _, isLit := ast.Unparen(dd).(*ast.FuncLit); isLit {
+						return false
 					}
 				}
-				if hp == nil {
-					break
-				}
-				subj = flow.NewFunc(f.Pkg, gd)
-				outer, h = gd.Body, hp
-				cons = fname(c08rs, wrapName, "Wrap") + "$" + fo.Name()
+				return true
 			}
-			c08oneRecord(v, subj, outer, cons, h, sentinel)
+			c08oneRecord(v, sf, sb.outer, sb.cons, isHandler, sentinel)
 		}
 	}
 	if f := fnOpt(c, c08cb, "CircuitBreaker", "Execute"); f != nil {
@@ -167,7 +141,7 @@ func c08Wrap(v *c08env) {
 		sentinel := lookupVar(c08cb, "ErrRejected")
 		if handler != nil && sentinel != nil {
 			subjects++
-			c08oneRecord(v, f, f.Body, fname(c08cb, "CircuitBreaker", "Execute"), handler, sentinel)
+			c08oneRecord(v, f, f.Body, fname(c08cb, "CircuitBreaker", "Execute"), func(o types.Object) bool { return o == handler }, sentinel)
 		}
 	}
 	c.RequireCount("R-C08-6", "call wrappers around the breaker", subjects, 1)
@@ -208,19 +182,19 @@ func c08via(f *flow.Func, defs c08defs, o types.Object) types.Object {
 	return o
 }
 
-func c08oneRecord(v *c08env, f *flow.Func, outer ast.Node, cons string, handler, sentinel types.Object) {
+func c08oneRecord(v *c08env, f *flow.Func, outer ast.Node, cons string, isHandler func(types.Object) bool, sentinel types.Object) {
 	c := v.c
 	body := f.Body
 	defs := c08collectDefs(f, outer)
 	via := func(o types.Object) types.Object { return c08via(f, defs, o) }
 	var acqs, recs, hcalls []*ast.CallExpr
 	for _, call := range calls(body, true) {
-		switch via(f.Callee(call)) {
-		case types.Object(v.meth["AcquirePermission"]):
+		switch o := via(f.Callee(call)); {
+		case o == types.Object(v.meth["AcquirePermission"]):
 			acqs = append(acqs, call)
-		case types.Object(v.meth["RecordResult"]):
+		case o == types.Object(v.meth["RecordResult"]):
 			recs = append(recs, call)
-		case handler:
+		case o != nil && isHandler(o):
 			hcalls = append(hcalls, call)
 		}
 	}
@@ -278,7 +252,18 @@ func c08oneRecord(v *c08env, f *flow.Func, outer ast.Node, cons string, handler,
 		}
 		return true
 	})
+	heldLits := map[ast.Node]bool{} // closures held in single-assignment locals: interpreted in place
+	for _, ds := range defs {
+		if len(ds) == 1 && ds[0] != nil {
+			if l, ok := ast.Unparen(ds[0]).(*ast.FuncLit); ok {
+				heldLits[l] = true
+			}
+		}
+	}
 	for _, l := range litsND {
+		if heldLits[l] {
+			continue
+		}
 		for _, r := range recs {
 			if contains(l.Body, r) {
 				c.Undecide("R-C08-6", cons+"|admitted call records exactly once", pos(c, r), "RecordResult is called inside a function literal that is not a deferred call; when it runs is not followed")
@@ -320,17 +305,21 @@ func c08oneRecord(v *c08env, f *flow.Func, outer ast.Node, cons string, handler,
 		recIdx[r] = i
 	}
 	res := analyze(c, f, flow.Config{
-		NoHavoc: true,
+		NoHavoc:        true,
+		Inline:         func(*ast.CallExpr, *types.Func) *flow.Func { return nil },
+		InlineClosures: true,
+		OnInline:       c08constParams(f),
 		MayPanic: func(call *ast.CallExpr, callee types.Object) bool {
-			return via(callee) == handler
+			o := via(callee)
+			return o != nil && isHandler(o)
 		},
 		OnCall: func(st *flow.State, call *ast.CallExpr, callee types.Object, deferred bool) {
-			switch via(callee) {
-			case types.Object(v.meth["AcquirePermission"]):
+			switch o := via(callee); {
+			case o == types.Object(v.meth["AcquirePermission"]):
 				st.Set("ev:acq", flow.True)
-			case types.Object(v.meth["RecordResult"]):
+			case o == types.Object(v.meth["RecordResult"]):
 				c08bump(st, "rec")
-			case handler:
+			case o != nil && isHandler(o):
 				st.Set("ev:handled", flow.True)
 			}
 		},
@@ -460,7 +449,12 @@ func c08oneRecord(v *c08env, f *flow.Func, outer ast.Node, cons string, handler,
 			cv := c08constOf(f, arg)
 			switch {
 			case panicking:
-				if cv == nil || cv.Kind() != constant.Bool || !constant.BoolVal(cv) {
+				isTrue := cv != nil && cv.Kind() == constant.Bool && constant.BoolVal(cv)
+				if id, isID := arg.(*ast.Ident); isID && cv == nil {
+					// e.g. the parameter of a local record(failed) closure
+					isTrue = st.Is(f.VarKey(id), flow.True) || st.Is("ev:pc:"+f.Render(id)+"==true", flow.True)
+				}
+				if !isTrue {
 					vd.fail("arg", "on the panic exit of the handler the call is not recorded as a failure", st)
 				}
 			case cv != nil:
@@ -516,14 +510,55 @@ func c08Proxy(v *c08env) {
 		return
 	}
 	sentinel, _ := rsPkg.Types.Scope().Lookup("ErrShortCircuited").(*types.Var)
+	// the result constant: by declared name, else the string constant of the package whose value
+	// is the documented result "shortCircuited"
 	resConst, _ := pxPkg.Types.Scope().Lookup("resultShortCircuited").(*types.Const)
-	cbField := structField(c, c08px, "ServerPool", "circuitBreakerWrapper")
-	var failFn types.Object
-	if o, _, _ := types.LookupFieldOrMethod(types.NewPointer(namedType(c, c08px, "ServerPool")), true, pxPkg.Types, "buildFailureResponse"); o != nil {
-		failFn = o
+	if resConst == nil {
+		for _, n := range pxPkg.Types.Scope().Names() {
+			if k, ok := pxPkg.Types.Scope().Lookup(n).(*types.Const); ok && k.Val().Kind() == constant.String && constant.StringVal(k.Val()) == "shortCircuited" {
+				resConst = k
+			}
+		}
 	}
-	if sentinel == nil || resConst == nil || cbField == nil || failFn == nil {
-		c.Errorf("R-C08-7: anchor: ErrShortCircuited / resultShortCircuited / ServerPool.circuitBreakerWrapper / buildFailureResponse not found")
+	// the breaker wrapper of the pool: the field of ServerPool that is assigned the result of
+	// (*resilience.CircuitBreakerPolicy).CreateWrapper (the declared name breaks ties)
+	var cbField *types.Var
+	if spT := namedType(c, c08px, "ServerPool"); spT != nil {
+		var cands []*types.Var
+		for _, file := range pxPkg.Syntax {
+			ast.Inspect(file, func(n ast.Node) bool {
+				as, ok := n.(*ast.AssignStmt)
+				if !ok || len(as.Lhs) != len(as.Rhs) {
+					return true
+				}
+				for i, r := range as.Rhs {
+					call, ok := ast.Unparen(r).(*ast.CallExpr)
+					if !ok {
+						continue
+					}
+					fo, ok := c08typeutilCallee(pxPkg.TypesInfo, call).(*types.Func)
+					if !ok || fo.Name() != "CreateWrapper" || !strings.HasSuffix(fo.FullName(), "resilience.CircuitBreakerPolicy).CreateWrapper") {
+						continue
+					}
+					if sel, ok := ast.Unparen(as.Lhs[i]).(*ast.SelectorExpr); ok {
+						if sl := pxPkg.TypesInfo.Selections[sel]; sl != nil && sl.Kind() == types.FieldVal {
+							if fv, ok := sl.Obj().(*types.Var); ok {
+								cands = append(cands, fv)
+							}
+						}
+					}
+				}
+				return true
+			})
+		}
+		for _, fv := range cands {
+			if cbField == nil || fv.Name() == "circuitBreakerWrapper" {
+				cbField = fv
+			}
+		}
+	}
+	if sentinel == nil || resConst == nil || cbField == nil {
+		c.Errorf("R-C08-7: anchor: ErrShortCircuited / result constant \"shortCircuited\" / the ServerPool field assigned from CircuitBreakerPolicy.CreateWrapper not found")
 		return
 	}
 	isSentinel := func(e ast.Expr) bool {
@@ -681,9 +716,27 @@ func c08Proxy(v *c08env) {
 		})
 		return found
 	}
+	// deferred calls (collectMetrics) stay opaque: interpreting them in place at the exits makes
+	// the engine forget Exit.Inner, the helper's return statement that produced the result
+	deferredCalls := map[*ast.CallExpr]bool{}
+	for _, g := range bodies {
+		ast.Inspect(g.Body, func(n ast.Node) bool {
+			if d, ok := n.(*ast.DeferStmt); ok {
+				deferredCalls[d.Call] = true
+			}
+			return true
+		})
+	}
+	inlineAll := inlineSamePkg(f)
 	res := analyze(c, f, flow.Config{
 		NoHavoc: true,
-		Inline:  inlineSamePkg(f),
+		Inline: func(call *ast.CallExpr, callee *types.Func) *flow.Func {
+			if deferredCalls[call] {
+				return nil
+			}
+			return inlineAll(call, callee)
+		},
+		OnInline: c08constParams(f),
 		OnNode: func(st *flow.State, n ast.Node) {
 			as, ok := n.(*ast.AssignStmt)
 			if !ok || len(as.Lhs) != len(as.Rhs) {
@@ -703,8 +756,19 @@ func c08Proxy(v *c08env) {
 			if isCBWrap(call) && kept[call] {
 				st.Set("ev:cbWrapped", flow.True)
 			}
-			if callee == failFn && len(call.Args) == 2 {
-				if cv := c08constOf(f, call.Args[1]); cv != nil && cv.ExactString() == "503" {
+			// the failure response: (*httpprot.Response).SetStatusCode(code), wherever the helper
+			// that builds it lives (it is interpreted in place; its status parameter carries the
+			// constant handed in by the caller)
+			if fo, ok := callee.(*types.Func); ok && fo.Name() == "SetStatusCode" && len(call.Args) == 1 &&
+				strings.HasSuffix(fo.FullName(), "httpprot.Response).SetStatusCode") {
+				arg := ast.Unparen(call.Args[0])
+				is503 := false
+				if cv := c08constOf(f, arg); cv != nil {
+					is503 = cv.ExactString() == "503"
+				} else if id, ok := arg.(*ast.Ident); ok {
+					is503 = st.Is("eq:"+f.Render(id)+"==503", flow.True) || st.Is("ev:pc:"+f.Render(id)+"==503", flow.True)
+				}
+				if is503 {
 					st.Set("ev:fail503", flow.True)
 				} else {
 					st.Set("ev:failOther", flow.True)
@@ -788,4 +852,34 @@ func c08Proxy(v *c08env) {
 	}
 	c.Check(vd.bad["only"] == "", "R-C08-7", cons+"|shortCircuited only for ErrShortCircuited", at,
 		"no other exit returns that result", vd.bad["only"], vd.w["only"]...)
+}
+
+func c08typeutilCallee(info *types.Info, call *ast.CallExpr) types.Object {
+	return typeutil.Callee(info, call)
+}
+
+// c08constParams is an OnInline hook: a constant handed to a helper / local closure is remembered
+// under the parameter's name as ev:pc:<param>==<value> (the engine binds constant operands that
+// are identifiers or qualified identifiers — true, http.StatusServiceUnavailable — as alias
+// paths and learns nothing about the parameter).
+func c08constParams(f *flow.Func) func(st *flow.State, ev *flow.InlineEvent) {
+	return func(st *flow.State, ev *flow.InlineEvent) {
+		if !ev.Enter {
+			return
+		}
+		for i, p := range ev.Params {
+			if i >= len(ev.Args) || p == nil {
+				continue
+			}
+			pre := "ev:pc:" + f.Render(p) + "=="
+			for _, kv := range st.Facts() {
+				if k := c08factKey(kv); strings.HasPrefix(k, pre) {
+					st.Set(k, flow.Unknown)
+				}
+			}
+			if cv := c08constOf(f, ev.Args[i]); cv != nil {
+				st.Set(pre+cv.ExactString(), flow.True)
+			}
+		}
+	}
 }
